@@ -284,6 +284,28 @@ def _run_map(desc):
                                                                            "max_diff_crystal": float(np.abs(got_c - want_c).max())})
             sh.evaluations += 1
             sh.nontrivial += 1
+    # two maps made WITHOUT a phase table (as from_ubis makes them), each told its reference cell afterwards by item assignment: every
+    # map is measured against its own cell, whichever was set up last
+    cell_other = [cell[0] * 1.1, cell[1] * 1.1, cell[2] * 0.93] + list(cell[3:])
+    for order in ("a-first", "b-first"):
+        with contextlib.redirect_stdout(io.StringIO()):
+            Ta = tm.TensorMap(maps={"UBI": ubA.copy(), "phase_ids": np.zeros(shape, int)})
+            Tb = tm.TensorMap(maps={"UBI": ubB.copy(), "phase_ids": np.zeros(shape, int)})
+            if order == "a-first":
+                Ta.phases[0] = ucm.unitcell(cell, "P"); Tb.phases[0] = ucm.unitcell(cell_other, "P")
+            else:
+                Tb.phases[0] = ucm.unitcell(cell_other, "P"); Ta.phases[0] = ucm.unitcell(cell, "P")
+            got_a, got_b = Ta.eps_sample, Tb.eps_sample
+            want_a = tm.TensorMap(maps={"UBI": ubA.copy(), "phase_ids": np.zeros(shape, int)}, phases={0: ucm.unitcell(cell, "P")}).eps_sample
+            want_b = tm.TensorMap(maps={"UBI": ubB.copy(), "phase_ids": np.zeros(shape, int)}, phases={0: ucm.unitcell(cell_other, "P")}).eps_sample
+        c5 = {"kind": "map", "cell": cell, "shape": list(shape), "seed": seed_of(),
+              "history": ["two maps built without phases", "phases[0] assigned on each, " + order, "read eps_sample of both"]}
+        if Ta.phases is Tb.phases or np.abs(got_a - want_a).max() > 1e-10 or np.abs(got_b - want_b).max() > 1e-10:
+            sh.violation("TensorMap.eps:map-measured-against-another-map's-reference-cell", c5,
+                         {"max_diff_a": float(np.abs(got_a - want_a).max()), "max_diff_b": float(np.abs(got_b - want_b).max()),
+                          "phase_tables_are_one_object": Ta.phases is Tb.phases})
+        sh.evaluations += 1
+        sh.nontrivial += 1
     # several phases whose integer keys are NOT 0..n-1 in insertion order (out of order, with a gap): every voxel is measured against
     # the cell of ITS phase key
     for keys in ((1, 0), (0, 3), (2, 5, 1), (0, 1, 2)):
